@@ -73,6 +73,17 @@ func errOrigin(st *fstate, t *Term) *Term {
 				fc := st.facts[k]
 				if fc.S == "def" && len(fc.A) >= 2 && fc.A[0].Key() == vk {
 					next = fc.A[1]
+					if len(fc.A) == 3 && (next.K == "call" || next.K == "mcall") {
+						// result i of a (possibly interpreted) call: follow that result, not result 0
+						ri := mk("res", fc.A[2].S, next)
+						for _, k2 := range sortedKeys(st.facts) {
+							f2 := st.facts[k2]
+							if f2.S == "eq" && len(f2.A) == 2 && f2.A[0].Key() == ri.Key() {
+								next = ri
+								break
+							}
+						}
+					}
 					break
 				}
 			}
